@@ -1078,7 +1078,10 @@ SET_OF_encode_uper(const asn_TYPE_descriptor_t *td,
         } else {
             may_encode =
                 uper_put_length(po, list->count - encoded_edx, &need_eom);
-            if(may_encode < 0) ASN__ENCODE_FAILED;
+            if(may_encode < 0) {
+                SET_OF__encode_sorted_free(encoded_els, list->count);
+                ASN__ENCODE_FAILED;
+            }
         }
 
         for(edx = encoded_edx; edx < encoded_edx + may_encode; edx++) {
@@ -1088,9 +1091,16 @@ SET_OF_encode_uper(const asn_TYPE_descriptor_t *td,
                 break;
             }
         }
+        if(edx < encoded_edx + may_encode) {
+            /* Could not write out an element */
+            SET_OF__encode_sorted_free(encoded_els, list->count);
+            ASN__ENCODE_FAILED;
+        }
 
-        if(need_eom && uper_put_length(po, 0, 0))
+        if(need_eom && uper_put_length(po, 0, 0)) {
+            SET_OF__encode_sorted_free(encoded_els, list->count);
             ASN__ENCODE_FAILED; /* End of Message length */
+        }
 
         encoded_edx += may_encode;
     }
